@@ -256,6 +256,7 @@ def rule_invalid_arg_guards(eng, rep, ctx):
         site_guards[s] = [a for (_b, a) in guards_of(cfg, s)
                           if not (isinstance(a.lhs, ast.Name) and a.lhs.id == "exit_info")]
     classified = set()
+    missing = []
     # comparison rows
     for (rid, op, lhs, rhs, co, reason) in tables.INVALID_ARG_ROWS:
         subject_hits, exact_hits = [], []
@@ -282,22 +283,20 @@ def rule_invalid_arg_guards(eng, rep, ctx):
             rep.bad(rule, eng.where(solve, cfg.ast_of(subject_hits[0][0])), "solver.solve|weakened-guard|%s" % rid,
                     "guard for documented class `%s` (%s) is `%r`: boundary value is no longer rejected" % (rid, reason, subject_hits[0][1]))
         else:
-            site_guards.setdefault("_missing", []).append(rid)
+            missing.append(rid)
     # parameter-value row
-    pv = [s for s, gs in site_guards.items() if s != "_missing" and any(a.op == "false" and isinstance(a.lhs, ast.Name) for a in gs)
+    pv = [s for s, gs in site_guards.items() if any(a.op == "false" and isinstance(a.lhs, ast.Name) for a in gs)
           and any(calls_to_in(eng, solve, "params.ParameterList.check_all_params"))]
     pv = [s for s in pv if not param_keys_in(eng, _all_guard_expr(site_guards[s]))]
     if pv:
         classified |= set(pv)
         rep.ok(rule, eng.where(solve, cfg.ast_of(pv[0])), "bad parameter values guarded by `not all_ok`")
     else:
-        site_guards.setdefault("_missing", []).append("bad parameter values")
+        missing.append("bad parameter values")
     # option-pair rows
     for (rid, conds, reason) in tables.OPTION_PAIR_ROWS:
         hit = None
         for s, gs in site_guards.items():
-            if s == "_missing":
-                continue
             okrow = True
             for (key, want) in conds:
                 found = False
@@ -321,8 +320,7 @@ def rule_invalid_arg_guards(eng, rep, ctx):
             classified.add(hit)
             rep.ok(rule, eng.where(solve, cfg.ast_of(hit)), "option conflict `%s` guarded" % rid)
         else:
-            site_guards.setdefault("_missing", []).append(rid)
-    missing = site_guards.get("_missing", [])
+            missing.append(rid)
     unclassified = [s for s in sites if s not in classified]
     for rid in missing:
         if unclassified:
